@@ -259,6 +259,131 @@ Section Order.
       - inversion H; subst. cbn in *. assert (G : 0 < cmp k k1) by (apply gt_lt; eapply lt_trans; eauto).
         destruct (Z.eqb_spec (cmp k k1) 0); [lia|]. now rewrite IH.
     Qed.
+
+    (* ---- split *)
+    Lemma below_all k l : keys_lt l k -> below k l = l.
+    Proof.
+      induction l as [|[k1 v1] l IH]; cbn [below filter]; auto. intros H. inversion H; subst. cbn [fst] in *.
+      unfold lt in H2. destruct (Z.ltb_spec (cmp k1 k) 0); [|lia]. f_equal. now apply IH.
+    Qed.
+    Lemma below_none k l : keys_gt l k -> below k l = [].
+    Proof.
+      induction l as [|[k1 v1] l IH]; cbn [below filter]; auto. intros H. inversion H; subst. cbn [fst] in *.
+      apply gt_lt in H2. destruct (Z.ltb_spec (cmp k1 k) 0); [lia|]. now apply IH.
+    Qed.
+    Lemma above_all k l : keys_gt l k -> above k l = l.
+    Proof.
+      induction l as [|[k1 v1] l IH]; cbn [above filter]; auto. intros H. inversion H; subst. cbn [fst] in *.
+      apply gt_lt in H2. destruct (Z.ltb_spec 0 (cmp k1 k)); [|lia]. f_equal. now apply IH.
+    Qed.
+    Lemma above_none k l : keys_lt l k -> above k l = [].
+    Proof.
+      induction l as [|[k1 v1] l IH]; cbn [above filter]; auto. intros H. inversion H; subst. cbn [fst] in *.
+      unfold lt in H2. destruct (Z.ltb_spec 0 (cmp k1 k)); [lia|]. now apply IH.
+    Qed.
+    Lemma below_app k l1 l2 : below k (l1 ++ l2) = below k l1 ++ below k l2.
+    Proof. apply filter_app. Qed.
+    Lemma above_app k l1 l2 : above k (l1 ++ l2) = above k l1 ++ above k l2.
+    Proof. apply filter_app. Qed.
+
+    Lemma below_app_lt k l1 k' v' l2 : lt k k' -> keys_gt l2 k' -> below k (l1 ++ (k', v') :: l2) = below k l1.
+    Proof.
+      intros H1 H2. rewrite below_app. rewrite (below_none k ((k', v') :: l2)).
+      - apply app_nil_r.
+      - constructor; auto. eapply keys_gt_trans; eauto.
+    Qed.
+    Lemma below_app_eq k v' l1 l2 : keys_lt l1 k -> keys_gt l2 k -> below k (l1 ++ (k, v') :: l2) = l1.
+    Proof.
+      intros H1 H2. rewrite below_app, below_all by auto. cbn [below filter fst]. rewrite cmp_refl. cbn.
+      fold (below k l2). rewrite below_none by auto. apply app_nil_r.
+    Qed.
+    Lemma below_app_gt k l1 k' v' l2 : keys_lt l1 k' -> lt k' k ->
+      below k (l1 ++ (k', v') :: l2) = l1 ++ (k', v') :: below k l2.
+    Proof.
+      intros H1 H2. rewrite below_app, below_all by (eapply keys_lt_trans; eauto). cbn [below filter fst].
+      unfold lt in H2. destruct (Z.ltb_spec (cmp k' k) 0); [|lia]. reflexivity.
+    Qed.
+    Lemma above_app_lt k l1 k' v' l2 : lt k k' -> keys_gt l2 k' ->
+      above k (l1 ++ (k', v') :: l2) = above k l1 ++ (k', v') :: l2.
+    Proof.
+      intros H1 H2. rewrite above_app. f_equal. cbn [above filter fst]. apply gt_lt in H1 as G.
+      destruct (Z.ltb_spec 0 (cmp k' k)); [|lia]. f_equal. apply above_all. eapply keys_gt_trans; eauto.
+    Qed.
+    Lemma above_app_eq k v' l1 l2 : keys_lt l1 k -> keys_gt l2 k -> above k (l1 ++ (k, v') :: l2) = l2.
+    Proof.
+      intros H1 H2. rewrite above_app, above_none by auto. cbn [above filter fst app]. rewrite cmp_refl. cbn.
+      now apply above_all.
+    Qed.
+    Lemma above_app_gt k l1 k' v' l2 : keys_lt l1 k' -> lt k' k -> above k (l1 ++ (k', v') :: l2) = above k l2.
+    Proof.
+      intros H1 H2. rewrite above_app, above_none by (eapply keys_lt_trans; eauto). cbn [above filter fst app].
+      unfold lt in H2. destruct (Z.ltb_spec 0 (cmp k' k)); [lia|]. reflexivity.
+    Qed.
+
+    Lemma below_sorted k l : sorted l -> sorted (below k l).
+    Proof.
+      induction l as [|[k1 v1] l IH]; cbn [below filter sorted fst]; auto. intros [H1 H2].
+      destruct (cmp k1 k <? 0); [|now apply IH]. cbn [sorted]. split; [|now apply IH].
+      clear - H1. induction l as [|[k2 v2] l IH]; cbn [below filter]; [constructor|]. inversion H1; subst.
+      destruct (cmp (fst (k2, v2)) k <? 0); [constructor; auto|]; now apply IH.
+    Qed.
+    Lemma above_sorted k l : sorted l -> sorted (above k l).
+    Proof.
+      induction l as [|[k1 v1] l IH]; cbn [above filter sorted fst]; auto. intros [H1 H2].
+      destruct (0 <? cmp k1 k); [|now apply IH]. cbn [sorted]. split; [|now apply IH].
+      clear - H1. induction l as [|[k2 v2] l IH]; cbn [above filter]; [constructor|]. inversion H1; subst.
+      destruct (0 <? cmp (fst (k2, v2)) k); [constructor; auto|]; now apply IH.
+    Qed.
+    Lemma below_keys_lt k l : keys_lt (below k l) k.
+    Proof.
+      induction l as [|[k1 v1] l IH]; cbn [below filter fst]; [constructor|].
+      destruct (Z.ltb_spec (cmp k1 k) 0); auto. constructor; auto.
+    Qed.
+    Lemma above_keys_gt k l : keys_gt (above k l) k.
+    Proof.
+      induction l as [|[k1 v1] l IH]; cbn [above filter fst]; [constructor|].
+      destruct (Z.ltb_spec 0 (cmp k1 k)); auto. constructor; auto. now apply gt_lt.
+    Qed.
+
+    (* ---- update, filter *)
+    Lemma upd_app_lt k g l1 k' v' l2 : lt k k' -> keys_gt l2 k' ->
+      upd k g (l1 ++ (k', v') :: l2) = upd k g l1 ++ (k', v') :: l2.
+    Proof.
+      intros H1 H2. unfold upd. rewrite find_app_lt by auto. destruct (g (find k l1)).
+      - now apply put_app_lt.
+      - now apply del_app_lt.
+    Qed.
+    Lemma upd_app_eq k g l1 v' l2 : keys_lt l1 k ->
+      upd k g (l1 ++ (k, v') :: l2) = l1 ++ match g (Some v') with Some d => [(k, d)] | None => [] end ++ l2.
+    Proof.
+      intros H1. unfold upd. rewrite find_app_eq by auto. destruct (g (Some v')).
+      - now apply put_app_eq.
+      - now apply del_app_eq.
+    Qed.
+    Lemma upd_app_gt k g l1 k' v' l2 : keys_lt l1 k' -> lt k' k ->
+      upd k g (l1 ++ (k', v') :: l2) = l1 ++ (k', v') :: upd k g l2.
+    Proof.
+      intros H1 H2. unfold upd. rewrite find_app_gt by auto. destruct (g (find k l2)).
+      - now apply put_app_gt.
+      - now apply del_app_gt.
+    Qed.
+    Lemma upd_sorted k g l : sorted l -> sorted (upd k g l).
+    Proof. intros H. unfold upd. destruct (g (find k l)); [now apply put_sorted|now apply del_sorted]. Qed.
+
+    Lemma afilter_app f l1 l2 : afilter f (l1 ++ l2) = afilter f l1 ++ afilter f l2.
+    Proof. apply filter_app. Qed.
+    Lemma filter_keys_gt (p : K * V -> bool) l k : keys_gt l k -> keys_gt (filter p l) k.
+    Proof.
+      induction l as [|a l IH]; cbn [filter]; auto. intros H. inversion H; subst.
+      destruct (p a); [constructor; auto|]; apply IH; auto.
+    Qed.
+    Lemma filter_sorted (p : K * V -> bool) l : sorted l -> sorted (filter p l).
+    Proof.
+      induction l as [|[k v] l IH]; cbn [filter sorted]; auto. intros [H1 H2].
+      destruct (p (k, v)); [|auto]. cbn [sorted]. split; auto. now apply filter_keys_gt.
+    Qed.
+    Lemma afilter_sorted f l : sorted l -> sorted (afilter f l).
+    Proof. apply filter_sorted. Qed.
   End Maps.
 End Order.
 
